@@ -1,0 +1,8 @@
+//go:build verif
+
+// Verification hooks (build tag verif) for C05: read-only accessors. No behaviour of its own.
+package raftconn
+
+// VerifAppliedIndex returns the node's applied index (entries up to it are never published again).
+func (n *RaftNode) VerifAppliedIndex() uint64 { return n.appliedIndex }
+
